@@ -8,5 +8,6 @@ __attribute__((weak)) std::string run_flow_queen(const vj::value&) { throw std::
 __attribute__((weak)) std::string run_flow_bishop(const vj::value&) { throw std::runtime_error("flow: not in this build"); }
 __attribute__((weak)) std::string run_flow_queen_nc(const vj::value&) { throw std::runtime_error("flow: not in this build"); }
 __attribute__((weak)) std::string run_flow_mesh(const vj::value&) { throw std::runtime_error("flow: not in this build"); }
+__attribute__((weak)) std::string run_adi_case(const vj::value&) { throw std::runtime_error("adi: not in this build"); }
 __attribute__((weak)) std::string run_grid_case(const vj::value&) { throw std::runtime_error("grid: not in this build"); }
 }
